@@ -16,8 +16,8 @@ ASSUMPTIONS = wa.ASSUMPTIONS + ["atom names are unique inside a generated residu
                                 "comparing (names, name-labelled edges); virtual-site kinds generated: virtual_sitesn funct 1, "
                                 "virtual_sites2, virtual_sites3 funct 1"]
 REAL_VS_STUB = wa.REAL_VS_STUB
-PROBES = wa.PROBES + ["skip_filter", "unoptimisable_residue", "optimisation_fall_through", "user_template", "user_volume", "resname_clash"]
-PROFILE = {"impossible_p": 0.5, "vs_p": 0.4,
+PROBES = wa.PROBES + ["improper_dihedral", "strained_ring", "skip_filter", "unoptimisable_residue", "optimisation_fall_through", "user_template", "user_volume", "resname_clash"]
+PROFILE = {"impossible_p": 0.4, "vs_p": 0.4, "improper_p": 0.6, "strained_p": 0.35,
            "n_restypes": (2, 3), "n_moltypes": (2, 3), "max_atoms": 4, "faults": ["opt", "opt", "step"],
            "max_molecules": 5, "maxres": 5, "box_modes": ["cubic"], "n_entries": (2, 3)}
 
@@ -53,6 +53,10 @@ def _tag(job, res):
         p["user_volume"] = 1
     if job.get("resname_clash"):
         p["resname_clash"] = 1
+    if any(rt.get("impropers") for rt in job["spec"]["restypes"].values()):
+        p["improper_dihedral"] = 1
+    if any(rt.get("strained") for rt in job["spec"]["restypes"].values()):
+        p["strained_ring"] = 1
     if job["opts"].get("skip_filter"):
         p["skip_filter"] = 1
     if any(rt.get("impossible") for rt in job["spec"]["restypes"].values()):
